@@ -22,6 +22,11 @@ EXTRA = {  # seeds that also violate a neighbouring property's statement
     'C07_r2_btb_forward_only_interval_scan': ['C12'],
     'C17_r2_modpoly_drops_copy_weights': ['C13'],
     'C11_r2_lam_one_skips_copy_aliasing': ['C06'],
+    'C02_r3_return_results_only_1d_sort_keys': ['C08'],
+    'C17_r3_get_function_sorts_sorted_x_again': ['C02'],
+    'C06_r3_solve_banded_overwrite_ab_tridiagonal': ['C10', 'C13'],
+    'C20_r3_individual_axes_sort_order_loop': ['C01', 'C02'],
+    'C12_r3_spline_basis2d_reuses_rows_for_close_axes': ['C07', 'C20'],
 }
 
 
